@@ -724,13 +724,18 @@ run_stalled(void *arg)
 		vs_fail("harness:peer", "raw connect");
 	vs_settle();
 	int ev      = vs_choose(VK_ENV, EV_N);
-	int inbound = SP_[pi].inbound ? vs_choose(VK_ENV, 2) : 0;
+	// inbound: 0 nothing, 1 three complete unread messages, 2 additionally the first part of a
+	// fourth one (its length prefix and some of its body): a receive is then in the middle of a
+	// message when the connection goes away.  (The one-way senders also read their pipe.)
+	int inbound = vs_choose(VK_ENV, 3);
+	if (!SP_[pi].inbound && inbound == 1)
+		inbound = 0;
 	int nsmall  = vs_choose(VK_ENV, 2) ? 4 : 0;
 	vs_log("%s over %s: %s inbound=%d small=%d", SP_[pi].name, RTN[tran], EVN[ev],
 	    inbound, nsmall);
 	if (inbound) {
 		// three unread messages for the receive path (buffer depth 2 + one at the pipe)
-		for (int i = 0; i < 3; i++) {
+		for (int i = 0; i < (SP_[pi].inbound ? 3 : 0); i++) {
 			uint8_t  f[64], w[80];
 			uint8_t  hdr[4] = { 0x80, 0, 0, (uint8_t) i }; // request id (xreq) / hop 1 (pair1)
 			size_t   hl     = 0;
@@ -750,6 +755,25 @@ run_stalled(void *arg)
 				vp_write_all(fd, f, n);
 		}
 		vs_settle();
+		if (inbound == 2) {
+			static uint8_t part[1200];
+			uint8_t        hdr[4] = { 0x80, 0, 0, 77 };
+			memset(part, 0x31, sizeof(part));
+			if (SP_[pi].peer == SP_PAIR1) {
+				hdr[0] = 0;
+				hdr[3] = 1;
+			}
+			static uint8_t f[1300], w[1320];
+			size_t         n = vp_frame(f, hdr, 4, part, 1000, tran == RT_IPC);
+			if (tran == RT_WS) {
+				// a first fragment (FIN clear) and half of a continuation frame
+				size_t wl = ws_frame(w, 2, 0, f + 8, 500);
+				wl += ws_frame(w + wl, 0, 1, f + 508, n - 508);
+				vp_write_all(fd, w, wl - 200);
+			} else
+				vp_write_all(fd, f, n - 600);
+			vs_settle();
+		}
 	}
 	size_t bigsz = (tran == RT_TCP || tran == RT_WS) ? (6u << 20) : (1u << 20);
 	nng_aio *big;
